@@ -89,24 +89,24 @@ func readCableLabsEbp(data []byte) (ebp *cableLabsEbp, err error) {
 		return nil, gots.ErrNoPayload
 	}
 
-	index := uint8(0)
+	index := 0 // an int: an 8 bit index wraps around on a long grouping chain and for data_field_length 254/255
 	// have reports whether n more bytes can be read at index
-	have := func(n int) bool { return int(index)+n <= len(data) }
+	have := func(n int) bool { return index+n <= len(data) }
 
 	ebp.DataFieldTag = data[index]
-	index += uint8(1)
+	index += 1
 
 	ebp.DataFieldLength = data[index]
-	index += uint8(1)
+	index += 1
 
 	// Check if the data is as advertised
 	if ebp.DataFieldLength > 0 {
 		if len(data) >= 7 {
 			ebp.FormatIdentifier = binary.BigEndian.Uint32(data[index : index+4])
-			index += uint8(4)
+			index += 4
 
 			ebp.DataFlags = data[index]
-			index += uint8(1)
+			index += 1
 		} else {
 			return nil, gots.ErrInvalidEBPLength
 		}
@@ -117,7 +117,7 @@ func readCableLabsEbp(data []byte) (ebp *cableLabsEbp, err error) {
 			return nil, gots.ErrInvalidEBPLength
 		}
 		ebp.ExtensionFlags = data[index]
-		index += uint8(1)
+		index += 1
 	}
 
 	if ebp.SapFlag() {
@@ -125,7 +125,7 @@ func readCableLabsEbp(data []byte) (ebp *cableLabsEbp, err error) {
 			return nil, gots.ErrInvalidEBPLength
 		}
 		ebp.SapType = data[index]
-		index += uint8(1)
+		index += 1
 	}
 
 	if ebp.GroupingFlag() {
@@ -137,7 +137,7 @@ func readCableLabsEbp(data []byte) (ebp *cableLabsEbp, err error) {
 		groupExtFlag = data[index]&0x80 != 0
 		group = data[index] & 0x7F
 		ebp.Grouping = append(ebp.Grouping, group)
-		index += uint8(1)
+		index += 1
 
 		for groupExtFlag {
 			if !have(1) {
@@ -146,7 +146,7 @@ func readCableLabsEbp(data []byte) (ebp *cableLabsEbp, err error) {
 			groupExtFlag = data[index]&0x80 != 0
 			group = data[index] & 0x7F
 			ebp.Grouping = append(ebp.Grouping, group)
-			index += uint8(1)
+			index += 1
 		}
 	}
 
@@ -155,10 +155,10 @@ func readCableLabsEbp(data []byte) (ebp *cableLabsEbp, err error) {
 			return nil, gots.ErrInvalidEBPLength
 		}
 		ebp.TimeSeconds = binary.BigEndian.Uint32(data[index : index+4])
-		index += uint8(4)
+		index += 4
 
 		ebp.TimeFraction = binary.BigEndian.Uint32(data[index : index+4])
-		index += uint8(4)
+		index += 4
 	}
 
 	if ebp.PartitionFlag() {
@@ -166,14 +166,14 @@ func readCableLabsEbp(data []byte) (ebp *cableLabsEbp, err error) {
 			return nil, gots.ErrInvalidEBPLength
 		}
 		ebp.PartitionFlags = data[index]
-		index += uint8(1)
+		index += 1
 	}
 
-	if index < ebp.DataFieldLength+2 {
-		if int(ebp.DataFieldLength+2) > len(data) {
+	if index < int(ebp.DataFieldLength)+2 {
+		if int(ebp.DataFieldLength)+2 > len(data) {
 			return nil, gots.ErrInvalidEBPLength
 		}
-		ebp.ReservedBytes = data[index : ebp.DataFieldLength+2]
+		ebp.ReservedBytes = data[index : int(ebp.DataFieldLength)+2]
 	}
 
 	// update the successful read time
